@@ -876,7 +876,12 @@ func (pk *pkg) scanFunc(fd *ast.FuncDecl, imports map[string]*pkg, res *scanResu
 								if fl, ok := t.Args[0].(*ast.FuncLit); ok {
 									saved := curOnce
 									curOnce = oid
+									// (round 4b) once.Do(f) runs f while every other caller of the same Do waits, and a
+									// re-entrant Do never returns: for the lock-order table the Once is an exclusive,
+									// non-re-entrant lock held for the length of f
+									evs = append(evs, lockEv{"acq", oid, "W"})
 									walk(fl.Body, true, inDefer)
+									evs = append(evs, lockEv{"rel", oid, ""})
 									curOnce = saved
 									return false
 								}
